@@ -88,3 +88,14 @@ Theorem c01_named_interchange :
     ty c (PLet q3 r) = Some q3.
 Proof. intros c a b r q3 H1 H2 H3 H4. exact (ty_named_interchange kinds impl_from n temp_dim c a b r q3 H1 H2 H3 H4). Qed.
 End T.
+
+(* ---- the dimension rules of the typing model are the ones written in the result types of the source
+   (Gen/OpsSrc.v is regenerated from src/system.rs on every run): * adds and / subtracts (left, right) exponents and gives the
+   default kind in the left operand's base units; number * q and number / q take (0, q) and keep q's kind; recip negates; sqrt and
+   cbrt divide exactly by 2 and 3; powi multiplies by the exponent; mul_add adds (self, a); all of these give the default kind ---- *)
+From Coq Require Import String.
+From UomV Require Import Model.OpsSrc Gen.OpsSrc Spec.OpsTie.
+Theorem c01_source_dimension_rules_are_the_model_rules :
+  dim_rules_ok src_dim_rules = true
+  /\ muldiv_aliases src_impl_ops_invocations = [("Mul", "Sum"); ("Div", "Diff")]%string.
+Proof. exact source_dimension_rules_are_the_model_rules. Qed.
